@@ -769,16 +769,7 @@ Theorem C06_cheby_polynomial_hypotheses_hold_in_ordered_field (S : Scalar) (Sft 
   olt s0 hi0 -> ole s0 lower -> olt lower higher ->
   let '(c, d) := cheby_cd c_half hi0 lower higher in
   c <> s0 /\ d <> s0 /\ @c_two S <> s0 /\ forall k, ole s1 (tau c d k) /\ tau c d k <> s0.
-Proof.
-  exact (fun Hh Hl Hlh =>
-    (let '(c, d) as cd return ((let '(c, d) := cd in olt s0 c /\ ole c d /\ d <> s0) ->
-                               let '(c, d) := cd in c <> s0 /\ d <> s0 /\ @c_two S <> s0 /\
-                                                    forall k, ole s1 (tau c d k) /\ tau c d k <> s0)
-       := cheby_cd c_half hi0 lower higher in
-     fun H => conj (pos_neq0 Ord c (proj1 H))
-             (conj (proj2 (proj2 H)) (conj (two_neq0 Sft Ord) (tau_nonzero Sft Ord c d (proj1 H) (proj1 (proj2 H))))))
-    (cheby_cd_ordered Sft Ord hi0 lower higher Hh Hl Hlh)).
-Qed.
+Proof. exact (cheby_hypotheses_ordered Sft Ord hi0 lower higher). Qed.
 Print Assumptions C06_cheby_polynomial_hypotheses_hold_in_ordered_field.
 
 (* closed instance at the exact rationals *)
